@@ -63,6 +63,11 @@ CLAIMS = {
  "C13": ("TLC explores the abstract tick array over the boundary slot set completely and generates one behaviour per reachable content; each is replayed (with every outgoing update and "
          "query) into Anchor-fixed/Anchor-dynamic/Pinocchio-fixed/Pinocchio-dynamic arrays and the recorded results are validated by TLC against module WpTickArray (contents, errors, "
          "bitmap, used length 148+112n, next-initialized-tick); random sequences over all 88 slots with full-width payloads", "exhaustive for the boundary slot set in the thorough tier; sampled in quick", "4 C13"),
+ "C20": ("trace validation with a differential oracle stated by the spec (predicate C20Quote: the SDK's quote of the recorded pre-state equals the recorded program result step totals; "
+         "SDK answers on refused swaps only for partial fill or tick-array run-off) on every swap of recorded histories incl. adaptive-fee pools, + TLC evaluation of the conversion predicates "
+         "(tick<->price, amount deltas, token estimates for liquidity, next price when both answer, slippage floor/ceil) on recorded calls of SDK and program functions",
+         "the SDK crate is compiled natively with a local shim of ethnum::U256 (the real ethnum crate is not in the offline registry; the shim mirrors its documented semantics incl. checked_shl); "
+         "the TypeScript SDK's WASM build of the same crate is not executed; increase/decrease liquidity quotes are covered through try_get_token_estimates_from_liquidity only", "4 C20"),
  "C08": ("trace validation: user/vault balance deltas of every recorded increase/decrease (Pinocchio v1+v2) equal the spec's exact TokenDeltas "
          "(up on deposit, down on withdrawal) and respect max/min; toy instance exercises the same TokenDeltas definition", "as C01", "4 C08"),
 }
